@@ -7,6 +7,15 @@ NOTE = ("Trusted base: rustc's MIR/name resolution (nightly, mir-opt-level=0) is
         "rules/panic_triage.py are argued by reading. The check decides necessary structural conditions only; the "
         "value-level remainder of the property is listed under 'not decided' in the evidence file.")
 CLAIMED = {
+ "C11": dict(
+   text="Path-sensitive exploration of handle_notification's MIR: exactly one publishDiagnostics on the didOpen/didChange arms, after change_text_document then semantic, built from the same notification's uri and Some(version); none elsewhere. Data-flow slice of contentChanges (last change must win). Who-writes analysis for Source fields and FileBackedProject.sources (cache coherence by construction) and callee identity of the analysis entry shared with `check`. Decides these structural clauses for all histories; equality of published content with a fresh server is not decided.",
+   design="3 C11", technique="static analysis: path-state exploration over MIR CFG, field who-writes, data-flow slicing"),
+ "C12": dict(
+   text="Panic-site inventory (as C04) from the LSP message loop; per-path response counting in handle_request (exactly one send_response carrying req.id on every exit class; Shutdown exemption derived from run()'s MIR guard); dispatch completeness of run()'s match on Message; call-graph proof that no response is reachable from handle_notification; run() returns Ok only on shutdown. Decides the survive/answer-once clauses structurally for all message sequences; liveness/interleavings and lsp-server internals are not decided.",
+   design="3 C12", technique="static analysis: MIR panic inventory over call graph, path-state counting lattice, call-graph reachability"),
+ "C13": dict(
+   text="Path-sensitive exploration (with flag and pushed-vector pruning) of cli::check/echo/tokenize/create_project: Err returned iff a diagnostic was emitted / an Err arm taken / a non-empty diagnostic list seen; OK printed iff Ok returned; check's verdict is semantic()'s inspected Result; term::emit's Result must be inspected; main returns each command's Result unchanged. Directory/argument-order equivalence is not decided.",
+   design="3 C13", technique="static analysis: path-state exploration over MIR CFG, result-use analysis"),
  "C04": dict(
    text="Exhaustive static inventory of every panic-capable construct (unwrap/expect/panic!/todo!/index/overflow/div-by-zero asserts, documented-to-panic std/time APIs) reachable in the workspace call graph from tokenize/parse/analyze/render/CLI entry points; each site is discharged by a range/guard argument re-derived from the MIR on every run, justified by a listed invariant, or reported. Plus who-writes bound for FixedPoint.femptos, indent/outdent typestate over the renderer CFGs. Decides the 'never panics' clause for all inputs as far as the listed invariants hold; termination/time/stack are not decided.",
    design="3 C04", technique="static analysis: MIR panic-site inventory over the resolved call graph, guard dominance and range propagation, typestate dataflow"),
